@@ -176,7 +176,13 @@ pub fn oracles(v: &View, stats: &mut Stats) -> Vec<Record> {
     // replayed the state counts what has been written on this connection so far.
     if v.connected {
         stats.oracle("C07/collision-matches-parked");
-        let parked = v.model.parked().map(|l| l.pid.clone());
+        // a publish that was parked when the connection was lost travels in `pending` until it
+        // is replayed (and parked again if its id is still held)
+        let parked = v
+            .model
+            .parked()
+            .map(|l| l.pid.clone())
+            .filter(|pid| !v.pending.iter().any(|p| matches!(p, Pk::Publish { payload, .. } if payload == pid)));
         let coll = v.collision.as_ref().map(|p| match p {
             Pk::Publish { payload, .. } => payload.clone(),
             _ => String::new(),
